@@ -16,6 +16,14 @@ DBL_MIN = 2.2250738585072014e-308
 EPS = 2.220446049250313e-16
 
 
+def ff(x):
+    """float() of a Fraction that may exceed the double range (sums of -DBL_MAX weights)"""
+    try:
+        return repr(float(x))
+    except OverflowError:
+        return ("-" if x < 0 else "") + "huge(2^%d)" % (abs(x).numerator.bit_length() - abs(x).denominator.bit_length())
+
+
 class Topo:
     def __init__(self, scn):
         self.n = 0
@@ -1026,10 +1034,10 @@ def c15(scn):
                 par[ra] = rb
                 mw += F(pe)
         if tw != mw:
-            fails.append(("tree_minimum_weight", "%s tree weight %r, minimum spanning weight %r" % (call.toks[1], float(tw), float(mw))))
+            fails.append(("tree_minimum_weight", "%s tree weight %s, minimum spanning weight %s" % (call.toks[1], ff(tw), ff(mw))))
         weights_seen[call.toks[1]] = tw
         if len(set(weights_seen.values())) > 1:
-            fails.append(("kruskal_boruvka_equal_weight", "%s" % {k: float(v) for k, v in weights_seen.items()}))
+            fails.append(("kruskal_boruvka_equal_weight", "%s" % {k: ff(v) for k, v in weights_seen.items()}))
         # orientation: every tree edge points away from the root
         depth = {root: 0}
         tadj = {}
